@@ -1034,6 +1034,9 @@ fn generate(rng: &mut Rng, thorough: bool) -> Vec<Call> {
   // ---------------------------------------------------------------- regular expressions proper (expectation: the second implementation `rx`)
   regex_families(rng, scale, &mut add);
 
+  // ---------------------------------------------------------------- string(e) = the text of e for canonically written values (expectation: `string_oracle`)
+  string_families(rng, scale, &mut add);
+
   // ---------------------------------------------------------------- contexts, not, number, string
   let ctxs = ["{}", "{a: 1}", "{a: 1, b: \"x\"}", "{b: 2, a: 1}", "{a: null}", "{a: {b: [1, 2]}}", "{\"a b\": 1, c: [true]}"];
   for c in ctxs {
@@ -1134,6 +1137,130 @@ fn generate(rng: &mut Rng, thorough: bool) -> Vec<Call> {
   }
   calls
 }
+
+/// `string(e)` for an expression written in canonical form: a number literal without superfluous zeros in front, a
+/// string literal, `true` / `false` / `null`, a list `[e, e]`, a context `{k: e, k: e}` with its keys in ascending
+/// order.  The text such a value is printed as (`to_feel_string`: DMN 10.3.4.1, examples `string(1.1)`,
+/// `string([1, 2, 3, "foo"])`) is the text of the expression itself, so the expectation needs no printer: family
+/// `string-printed`, judged by `string_oracle`.  Every value kind that can be written this way at every nesting
+/// depth 0..3, numbers with 1..34 digits, 0..8 fraction digits, trailing zeros, a leading `0.000…`; strings over
+/// ASCII / BMP / supplementary characters with quotation marks, and characters that delimit contexts and lists.
+fn printable(rng: &mut Rng, depth: u32) -> String {
+  fn number(rng: &mut Rng) -> String {
+    let total = match rng.below(6) {
+      0 => 1,
+      1 => 34,
+      2 => 1 + rng.below(34) as usize,
+      _ => 1 + rng.below(9) as usize,
+    };
+    let frac = (rng.below(9) as usize).min(total.saturating_sub(1)).min(if rng.below(3) == 0 { 0 } else { 8 });
+    let mut digits: Vec<u8> = (0..total).map(|_| rng.below(10) as u8).collect();
+    let int_len = total - frac;
+    // no superfluous zero in front: a one-digit integer part may be 0 when a fraction follows
+    if int_len > 1 && digits[0] == 0 {
+      digits[0] = 1 + rng.below(9) as u8;
+    }
+    if rng.below(5) == 0 && frac > 0 {
+      // 0.000ddd
+      for d in digits.iter_mut().take(int_len) {
+        *d = 0;
+      }
+      digits.truncate(frac + 1);
+      let mut t = String::from("0.");
+      for d in &digits[1..] {
+        t.push((b'0' + d) as char);
+      }
+      if digits[1..].iter().all(|d| *d == 0) {
+        t.pop();
+        t.push('7');
+      }
+      return if rng.below(3) == 0 { format!("-{}", t) } else { t };
+    }
+    let mut t = String::new();
+    for (i, d) in digits.iter().enumerate() {
+      if i == int_len {
+        t.push('.');
+      }
+      t.push((b'0' + d) as char);
+    }
+    let zero = digits.iter().all(|d| *d == 0);
+    if !zero && rng.below(3) == 0 {
+      format!("-{}", t)
+    } else {
+      t
+    }
+  }
+  fn string(rng: &mut Rng) -> String {
+    const CS: &[char] = &['a', 'b', 'Z', ' ', 'é', 'ß', '€', '🙏', '"', ',', ':', '{', '}', '[', ']', '1', '.', '-'];
+    let n = rng.below(6) as usize;
+    let s: String = (0..n).map(|_| CS[rng.below(CS.len() as u64) as usize]).collect();
+    lit_str(&s)
+  }
+  let kinds = if depth == 0 { 5 } else { 8 };
+  match rng.below(kinds) {
+    0 => number(rng),
+    1 => string(rng),
+    2 => ["true", "false"][rng.below(2) as usize].to_string(),
+    3 => "null".to_string(),
+    4 => number(rng),
+    5 | 6 => {
+      let n = rng.below(4) as usize;
+      let items: Vec<String> = (0..n).map(|_| printable(rng, depth - 1)).collect();
+      format!("[{}]", items.join(", "))
+    }
+    _ => {
+      const KEYS: &[&str] = &["A", "Zz", "a", "a1", "ab", "b", "key", "x_1", "é"];
+      let keys: Vec<&str> = KEYS.iter().filter(|_| rng.below(3) == 0).copied().collect();
+      let entries: Vec<String> = keys.iter().map(|k| format!("{}: {}", k, printable(rng, depth - 1))).collect();
+      format!("{{{}}}", entries.join(", "))
+    }
+  }
+}
+
+fn string_families(rng: &mut Rng, scale: u64, add: &mut dyn FnMut(&'static str, Vec<String>, &'static str)) {
+  for x in [
+    "null", "true", "false", "0", "1", "-1", "10", "100", "1.0", "1.50", "-2.500", "0.1", "0.000001", "0.0000001", "-0.00000015", "123456789.987654321",
+    "1234567890123456789012345678901234", "0.1234567890123456789012345678901234", "1000000000000000000000000000000000", "\"\"", "\"a\"", "\"a\\\"b\"", "\"🙏\"", "[]", "{}", "[[]]", "[{}]", "{a: []}",
+    "[1.50, \"a\\\"b\", null, [true]]", "{a: 1.0, b: \"x, y\", c: {d: [null]}}", "[\"{\", \"}\", \":\", \",\"]",
+    // temporal values, top level: the lexical form of the value (DMN 10.3.4.1: string(date("2012-12-25")) = "2012-12-25")
+    "date(\"2021-01-05\")", "date(\"1999-12-31\")", "time(\"10:20:30\")", "time(\"00:00:00\")", "time(\"10:20:30+02:00\")", "date and time(\"2021-01-05T10:20:30\")", "duration(\"P1DT2H\")", "duration(\"PT1H30M\")",
+    "duration(\"P1Y2M\")", "duration(\"P2Y\")",
+  ] {
+    add("string", vec![x.into()], "string-printed");
+  }
+  for i in 0..(400 * scale) {
+    let e = printable(rng, (i % 4) as u32);
+    add("string", vec![e], "string-printed");
+  }
+}
+
+/// The expectation of family `string-printed`: null for null, the string for a string, the lexical form for a
+/// temporal value, and the text of the (canonically written) expression for everything else.
+fn string_oracle(call: &Call) -> Option<(Want, &'static str)> {
+  if call.bif != "string" || call.family != "string-printed" || call.args.len() != 1 {
+    return None;
+  }
+  let a = call.args[0].as_str();
+  if a == "null" {
+    return Some((Want::Null, "string(null) is not null"));
+  }
+  if a.starts_with('"') {
+    return unlit(a).map(|s| (Want::Str(s), "string(string) is not the string"));
+  }
+  for f in ["date and time(\"", "date(\"", "time(\"", "duration(\""] {
+    if let Some(rest) = a.strip_prefix(f) {
+      return rest.strip_suffix("\")").map(|t| (Want::Str(t.to_string()), "string(temporal value) is not its lexical form"));
+    }
+  }
+  let sig = match a.chars().next() {
+    Some('[') => "string(list) is not the text of the list",
+    Some('{') => "string(context) is not the text of the context",
+    Some('t') | Some('f') => "string(boolean) is not true / false",
+    _ => "string(number) is not the plain decimal text",
+  };
+  Some((Want::Str(a.to_string()), sig))
+}
+
 
 /// `mode`: few values in several spellings each (`1`, `1.0`, `1.00`: one value, shown in the spelling of its first
 /// occurrence), so that values repeat and several of them share the greatest count; negative numbers and zeros of
@@ -1679,6 +1806,18 @@ pub fn run(cfg: &Cfg) -> Report {
               sig
             };
             rep.disagree(Kind::ImplVsSpec, "regex-oracle", sig, &inp, &show_impl(imp), &want.show());
+          }
+        }
+      }
+    }
+    // ---- string(e) against the text of the canonically written expression (family string-printed), both forms
+    if let Some((want, sig)) = string_oracle(&d.call) {
+      rep.hit("string-oracle:judged");
+      let forms: Vec<(&Impl, String)> = std::iter::once((&d.pos, input.clone())).chain(d.named.iter().zip(d.named_text.iter()).map(|(n, t)| (n, input_of(&d.call, t)))).collect();
+      for (imp, inp) in forms {
+        if let Impl::Val(v) = imp {
+          if !want.is(v) {
+            rep.disagree(Kind::ImplVsSpec, "string-oracle", sig, &inp, &show_impl(imp), &want.show());
           }
         }
       }
